@@ -167,3 +167,60 @@ def run(idx: ProgramIndex, rep: Report, tier: str):
     from .c19 import axis_addressing
     ng = [c for c in idx.package_classes() if c.module.name in (idx.package + ".variational.natural_variational_distribution", idx.package + ".variational.tril_natural_variational_distribution")]
     axis_addressing(idx, rep, ng, rule="C15-6", floor=6)
+    weights_not_divisors(idx, rep)
+
+
+# ---- C15-7 ---------------------------------------------------------------------------------------------------------
+def weights_not_divisors(idx: ProgramIndex, rep: Report):
+    """'(beta / N) KL' is defined for every beta >= 0, beta = 0 being the usual start of a KL warm-up schedule.  A user-supplied weight
+    (constructor argument with a numeric default, stored on self) that appears in a *denominator* makes the objective undefined at 0:
+    `kl.div(num_data / beta)` raises ZeroDivisionError where `kl * (beta / num_data)` is 0.  Allowed when the constructor rejects the
+    values at which the denominator vanishes (`if gamma <= 1.0: raise`)."""
+    rep.rule("C15-7", "user-supplied weights of the objectives (constructor arguments with a numeric default) are factors, not divisors - unless the constructor rejects the values at which the divisor vanishes")
+    base = idx.find_class("MarginalLogLikelihood")
+    n = 0
+    seen_sites = set()
+    for cls in sorted([base] + list(idx.subclasses(base)), key=lambda c: c.qualname):
+        init = cls.methods.get("__init__")
+        if init is None:
+            continue
+        a = init.node.args
+        defaults = dict(zip([x.arg for x in a.args[len(a.args) - len(a.defaults):]], a.defaults))
+        weights = {p for p, d in defaults.items() if isinstance(d, ast.Constant) and isinstance(d.value, (int, float)) and not isinstance(d.value, bool)
+                   and any(isinstance(s_, ast.Assign) and any(isinstance(t, ast.Attribute) and t.attr == p and chain(t.value) == "self" for t in s_.targets) for s_ in ast.walk(init.node))}
+        for w in sorted(weights):
+            validated = any(isinstance(x, ast.If) and any(isinstance(y, ast.Name) and y.id == w for y in ast.walk(x.test)) and any(isinstance(z, ast.Raise) for b_ in x.body for z in ast.walk(b_)) for x in ast.walk(init.node))
+            for k in [cls] + list(idx.subclasses(cls)):
+                for mname, m in sorted(k.methods.items()):
+                    for x in ast.walk(m.node):
+                        den = None
+                        if isinstance(x, ast.BinOp) and isinstance(x.op, (ast.Div, ast.FloorDiv)):
+                            den = x.right
+                        elif isinstance(x, ast.Call) and isinstance(x.func, ast.Attribute) and x.func.attr in ("div", "div_", "true_divide") and x.args:
+                            den = x.args[0]
+                        if den is None:
+                            continue
+                        # the weight in the denominator of the denominator is a factor again: (a / (b / w)) - only direct occurrences count,
+                        # and a nested division by the weight inside the divisor is a division by the weight
+                        def in_den(e, depth=0):
+                            if isinstance(e, ast.Attribute) and e.attr == w and chain(e.value) == "self":
+                                return True
+                            if isinstance(e, ast.BinOp) and isinstance(e.op, (ast.Mult,)):
+                                return in_den(e.left, depth) or in_den(e.right, depth)
+                            if isinstance(e, ast.BinOp) and isinstance(e.op, (ast.Div,)):
+                                return in_den(e.left, depth)  # w / c : still vanishes with w -> the outer division is by zero
+                            return False
+                        direct = in_den(den)
+                        nested = isinstance(den, ast.BinOp) and isinstance(den.op, ast.Div) and any(isinstance(y, ast.Attribute) and y.attr == w and chain(y.value) == "self" for y in ast.walk(den.right))
+                        if not (direct or nested):
+                            continue
+                        key_ = (m.module.relpath, x.lineno, x.col_offset, w)
+                        if key_ in seen_sites or any((m.module.relpath, x.lineno, w) == (a_, b_, d_) for a_, b_, _c, d_ in seen_sites):
+                            continue
+                        seen_sites.add(key_)
+                        n += 1
+                        ok = validated
+                        rep.add("C15-7", "%s:%s.%s[/ self.%s]" % (k.module.name, k.qualname, mname, w), "%s:%d" % (m.module.relpath, x.lineno), ok,
+                                "the constructor rejects the values of `%s` at which the divisor vanishes" % w if ok else
+                                "`%s` divides by the user-supplied weight `%s` (default %s): the objective is undefined (ZeroDivisionError) at %s = 0, a value the definition (beta / N) KL covers and KL warm-up schedules start from" % (" ".join(src(x).split())[:60], w, src(defaults[w]), w), {})
+    rep.floor("C15-7", "divisions by user-supplied weights", n, 1)
